@@ -592,7 +592,11 @@ func (r *Reader) MarkdownWithOptions(opts ExtractOptions) (string, error) {
 		for col := minCol; col <= maxCol; col++ {
 			result.WriteString(" ")
 			if minRow < len(sheet.Rows) && col < len(sheet.Rows[minRow]) {
-				result.WriteString(escapeMarkdown(sheet.Rows[minRow][col].Value))
+				// (a covered cell of a merged region stays blank, as in the data rows)
+				cell := sheet.Rows[minRow][col]
+				if !cell.IsMerged || cell.IsMergeRoot {
+					result.WriteString(escapeMarkdown(cell.Value))
+				}
 			}
 			result.WriteString(" |")
 		}
@@ -771,9 +775,13 @@ func (r *Reader) Document() (*model.Document, error) {
 				cell := sheet.Rows[rowIdx][colIdx]
 
 				modelCell := model.Cell{
-					Text:    cell.Value,
 					RowSpan: cell.MergeRows,
 					ColSpan: cell.MergeCols,
+				}
+				// The value of a merged region belongs to its top-left
+				// cell; the cells it covers stay blank
+				if !cell.IsMerged || cell.IsMergeRoot {
+					modelCell.Text = cell.Value
 				}
 
 				// Mark first row as headers
